@@ -127,9 +127,9 @@ class MDCPDPEnv(RL4COEnvBase):
         ).long()  # If pickup, add 1
         current_carry -= (current_node >= pd_split_idx).long()  # If delivery, minus 1
 
-        # Update the current depot
+        # Update the current depot: a tour belongs to the depot it starts from
         current_depot = td["current_depot"]
-        current_depot = torch.where(back_flag, current_node, current_depot)
+        current_depot = torch.where(current_node < num_depot, current_node, current_depot)
 
         # Update the length of current tour
         current_length = td["current_length"]
